@@ -104,8 +104,10 @@ fn bytes_of(msgs: &[RMsg]) -> Vec<u8> {
 }
 fn stats_of(msgs: &[RMsg], storage: bool) -> Result<StatisticInfo, Violation> {
     let bytes = bytes_of(msgs);
+    // a reader whose buffers are as small as the stream allows (they wrap inside messages all the time)
+    let (cap, max) = super::readers::capacities(5, &bytes, storage).unwrap_or((65551, 65551));
     guard(|| {
-        let mut reader = DltMessageReader::with_capacity(65551, 65551, &bytes[..], storage);
+        let mut reader = DltMessageReader::with_capacity(cap, max, &bytes[..], storage);
         let mut c = StatisticInfoCollector::default();
         collect_statistics(&mut reader, &mut c).map(|_| c.collect())
     })
